@@ -39,6 +39,15 @@ class Contract:
         self.unroll = {}
         self.replay = None
 
+    def params(self, *names):
+        """parameter names of a dependency that has no source (assumed contracts on stdlib leaves)"""
+        self.param_names = list(names); return self
+
+    def ghost(self, name, ty="any"):
+        if (name, ty) not in self.ghost_l:
+            self.ghost_l.append((name, ty))
+        return self
+
     def types(self, **kw):
         self.param_types.update(kw); return self
 
